@@ -153,7 +153,7 @@ func (b buildSpec) accepts(t *TyDef, opt string, named bool) bool {
 		}
 		// values that are slices of length-delimited elements (also behind pointers): in the repeated
 		// form an entry would hold one value field per element, which no map entry can
-		return !(b.protoArrays && (refEnc{}).wt(t.Elem, "") == 3)
+		return !(b.protoArrays && ((refEnc{}).wt(t.Elem, "") == 3 || (refEnc{}).wt(t.Key, "") == 3))
 	case "struct":
 		if b.strict && opt != "" {
 			return false
